@@ -219,7 +219,7 @@ int main(int argc, char **argv){
     case 'N': out8('N'); out32((int)ST->state); snap(); break;
     case 'R': shim_free(); out8('R'); break;
     case 'X': case 'G': {
-      int L = rd8(), nr = rd8(); unsigned char reps[32]; for (int i = 0; i < nr; i++) reps[i] = rd8();
+      int L = rd8(), nr = rd8(); unsigned char reps[256]; for (int i = 0; i < nr; i++) reps[i] = rd8();
       int do_end = rd8();
       GMASK = (do_end & 2) ? 0x7fffffffu : 0; NOOFF = (do_end & 4) != 0; do_end &= 1;
       exhaust(op == 'G', L, nr, reps, do_end);
